@@ -8,10 +8,10 @@ import sys
 from . import common
 from .common import Check
 from .c11_ref import EMPTY_ONLY as REF_EMPTY_ONLY, REF, arity, denotation
-from .c17 import report_blackbox_streams, report_harness_state
+from .c17 import ENVS, HUNG, SPECIAL_CHARS, leave, rejection_block, report_blackbox_streams, report_harness_state
 from .c17_impl import (B1_EVENTS, HOUR, MINUTE, HarnessBroken, Impl, Unsupported, QNAME, T_END, T_START, blackbox_skip,
                        show_outcome)
-from .c17_session import Session, canon, minimise, show_canon
+from .c17_session import Session, canon, minimise, show_canon, unroll
 
 RULE = ("every token kind in every argument position (all 216 kind triples of a 3-argument call, each kind "
         "nested in call / list / dict-value position), the defect-13 witnesses, what the model's wf admits beyond "
@@ -34,6 +34,12 @@ RULE = ("every token kind in every argument position (all 216 kind triples of a 
         "pool (bucket ids / id fragments, hostnames, event lists), literal and through variables, the call bare / in a list / in a "
         "dict / as an argument / assigned and repeated, against two datastores whose buckets carry different hostnames; "
         "every query of a session is compared with the reference and the model run on that query alone; "
+        "string contents with every line-boundary / white-space / zero-width / normalisation-sensitive code point (CR LF, CR, VT, "
+        "FF, FS-US, NEL, LS, PS, NBSP, BOM, NUL, lone surrogates, combining sequences, ..) in every literal position; every second "
+        "program's second layout under a process-level setting a host may have made (logging at DEBUG with a formatting handler, "
+        "lowered recursion limit, warnings as errors, other local time zones, no int-digit limit); a third of the session queries "
+        "on worker threads that stay alive; well-formed programs after runs of hundreds of rejected queries whose error sits "
+        "inside nested elements; "
         "non-trivial = distinct program text containing a call, a list or a dict")
 
 # every ASCII character str.strip() removes (Model/PyStr.v is_space): \t \n \x0b \x0c \r \x1c-\x1f and the space
@@ -110,7 +116,10 @@ def p_prog(prog, bl, memo=None):
 
 def g_str(rng):
     n = rng.choice([0, 1, 1, 2, 3, 5, 8])
-    s = "".join(rng.choice(STR_ALPHA) for _ in range(n))
+    # a fifth of the characters from the code points some text routine treats specially (c17.SPECIAL_CHARS: the
+    # line boundaries of str.splitlines, white space beyond ASCII, zero-width / format characters, NUL, lone
+    # surrogates, what normalisation or case folding rewrites): inside a literal each stands for itself
+    s = "".join(rng.choice(STR_ALPHA) if rng.random() < 0.8 else rng.choice(SPECIAL_CHARS) for _ in range(n))
     while s.endswith("\\"):
         s = s[:-1] + rng.choice("ab\"'")
     return ("str", rng.choice("\"'"), s)
@@ -237,6 +246,14 @@ def corpus():
     for s in ['a"b', "a'b", "\\\"", "\\'", "a\\b", "=", "(", ")]}", ",", ":", "[(", 'x\\"y', "é→", ' " ', "''", '""']:
         for q in "\"'":
             yield [("RETURN", ("call", "echo", [("str", q, s), ("list", [("str", q, s)]), ("dict", [((q, s), ("str", q, s))])]))]
+    # every special code point alone, between letters, doubled and after a backslash: as a statement's value, a list
+    # entry, a dict key and value, a call argument, through a variable
+    for c in SPECIAL_CHARS:
+        for i, s in enumerate([c, "a" + c + "b", c + c + "z", "x\\" + c]):
+            q = "\"'"[i % 2]
+            yield [("RETURN", ("call", "echo", [("str", q, s), ("list", [("str", q, s)]), ("dict", [((q, s), ("str", q, s))])]))]
+            yield [("t", ("str", q, s)), ("RETURN", ("call", "concat", [("list", [("var", "t")]), ("list", [("dict", [(('"', "k"), ("var", "t"))])])]))]
+        yield [("RETURN", ("str", "'", "line one" + c + "line (two), \"x\" = [3]"))]
 
 
 def corpus_more():
@@ -761,12 +778,39 @@ def features(prog):
 def main(argv=None):
     ck = Check("C11", argv)
     try:
-        return run_check(ck)
+        rc = run_check(ck)
     except HarnessBroken as e:
         # the harness itself cannot work on this tree (unreadable specification, ...): a broken tie with a replay
         # file that names what no longer checks, like every other one
         ck.disagreement("harness", f"the harness cannot establish the tie on this tree: {e}", {"harness": str(e)})
-        return ck.finish(RULE)
+        rc = ck.finish(RULE)
+    leave(rc)           # a worker thread stuck in a query must not keep the process alive (harness/c17.py)
+    return rc
+
+
+# Process-level settings (harness/c17_impl.py `environment`) a program's meaning must not depend on.  Not the lowered
+# int-digit limit: a literal of more digits than the limit is outside the well-formed programs (Model/QueryRef.v wf).
+C11_ENVS = [e for e in ENVS if e.get("int_digits") != 640]
+
+
+def corpus_rejections():
+    """Well-formed programs with nested elements after long runs of REJECTED queries whose error sits inside nested
+    elements (parse, name, arity, type, bucket errors: harness/c17.py rejection_block) - three times over."""
+    good = [
+        [("x", L(I(1), L(I(2), D(("a", L(I(3), S("]"))))))), ("RETURN", C("concat", V("x"), L(C("nop"))))],
+        [("RETURN", D(("k", C("limit_events", C("concat", L(I(1), I(2)), L(I(3))), I(2)))))],
+        [("RETURN", C("echo", KIND_REP["list"], KIND_REP["dict"], KIND_REP["call"]))],
+        [("a", L(S("a,(b]"), L())), ("b", V("a")), ("a", I(1)), ("RETURN", L(V("a"), V("b"), D(("k", L(V("b"))))))],
+        [("RETURN", L(L(L(L(I(1))))))],
+        [("RETURN", C("echo", C("echo", C("echo", L(D(("k", C("nop"))))))))],
+        [("RETURN", C("query_bucket_eventcount", C("find_bucket", S("b1"))))],
+        [("RETURN", I(1))],
+    ]
+    items = []
+    for burst in range(3):
+        items.append(["repeat", 8, rejection_block(40, 40 * burst)])
+        items += [("main", p) for p in good]
+    yield items
 
 
 def run_check(ck):
@@ -796,10 +840,10 @@ def run_check(ck):
         sess.apply(op)
 
     def contents(dsname):
-        return impl.contents[id(sess.dss[dsname])]
+        return impl.contents_of(sess.dss[dsname])
 
     def hosts(dsname):
-        return impl.hosts[id(sess.dss[dsname])]
+        return impl.hosts_of(sess.dss[dsname])
 
     progs = [("corpus", p, None) for p in corpus()] + [("corpus", p, None) for p in corpus_more()]
     progs += [("corpus-history", p, None) for p in corpus_history()]
@@ -830,31 +874,48 @@ def run_check(ck):
         kids = t[2] if k == "call" else t[1] if k == "list" else [v for _, v in t[1]] if k == "dict" else []
         return max([len(kids)] + [widest(x) for x in kids])
 
-    def ask(stream, prog, text, dsname="main", history=None, ctx=None):
+    def ask(stream, prog, text, dsname="main", history=None, ctx=None, opts=None):
         """One query: the reference on this program alone (datastore contents as they are), the
-        implementation in this process as it is by now, the model on this text alone."""
+        implementation in this process as it is by now, the model on this text alone.
+        opts: {"thread": worker thread the query runs on, "env": process-level settings while it runs} - neither is
+        something the reference or the model knows about."""
+        opts = opts or {}
         want = denotation(prog, contents(dsname), ctx, hosts(dsname))
-        r = impl.run(text, ds=sess.dss[dsname], ctx=ctx)
+        r = impl.run(text, ds=sess.dss[dsname], ctx=ctx, thread=opts.get("thread"), env=opts.get("env"))
         kind, payload = r["outcome"]
         got = ("value", canon(impl, payload)) if kind == "value" else (kind, payload)
+        if r.get("thread"):
+            ck.count("thread:" + r["thread"])
+        if opts.get("env"):
+            ck.count("env:" + ",".join(sorted(opts["env"])))
         ck.count("stream:" + stream)
         ck.count("outcome:" + (kind if kind != "error" else payload))
         ck.count("statements=%d" % min(len(prog), 9))
         ck.note_case(text if history is None else [text, dsname, len(history)], nontrivial=any(c in text for c in "([{"))
         short = text if len(text) < 400 else text[:200] + f" ...({len(text)} characters)... " + text[-80:]
         op = ["query", dsname, text, {"value": want[1]} if want[0] == "value" else {"class": want[1]} if want[0] == "error" else {}]
-        if ctx:
-            op.append(list(ctx))
+        if ctx or opts:
+            op.append(list(ctx) if ctx else None)
+        if opts:
+            op.append(opts)
         if want[0] == "ambiguous" or (want[0] == "error" and want[1] in ("Other", "Unparseable")):
             ck.count("reference-silent:" + (want[0] if want[0] == "ambiguous" else "outside the documented behaviour"))
             op[3] = {}
         elif got != want:
             show = lambda o: (show_canon(o[1]) if o[0] == "value" else str(o[1]))[:600]
             verb = lambda o, v="evaluates to": v if o[0] == "value" else ("raises" if o[0] == "error" else "ends in")
+            if kind == "timeout":
+                show = lambda o, show=show: "no answer within the time limit" if o[0] == "timeout" else show(o)
             replay = {"query": text, "implementation": show(got), "reference": show(want), "ast": repr(prog)[:4000], "datastore": dsname,
                       "context": ctx or "query name 'q-name', period 2020-01-01Z .. 2020-01-02Z",
                       "call": "aw_query.query2.query(name, query, start, end, datastore); values in the "
                               "canonical form of harness/c17_session.canon (events as [offset from 2020-01-01Z, duration, data] in us)"}
+            if opts:
+                replay["options"] = opts
+            if history is None and opts:        # re-runnable with its options: a session of one query
+                replay["session"] = setup_ops + [op]
+                replay["rerun"] = ("save replay.session as {\"ops\": [...]} and run /venv/bin/python -m harness.c17_session <file> "
+                                   "(exit 1 = the last query misses its expectation)")
             if history is not None:
                 ops = setup_ops + history + [op]
                 if not minimised and not ck.violations:
@@ -884,53 +945,67 @@ def run_check(ck):
         expect.append((stream, short, log, wantw, dsname))
         return got, op
 
-    for stream, prog, fixed_layouts in progs:
+    for pi, (stream, prog, fixed_layouts) in enumerate(progs):
         outs = []
         memo = {}
         layouts = [(bl, None) for bl in fixed_layouts] if fixed_layouts is not None else \
                   [(compact, memo), (rnd, None)] if stream.startswith("corpus") else [(rnd, memo), (rnd, None)]
         feats = features(prog)
         depth = max(depth_of(e) for _, e in prog)
-        for bl, m in layouts:
+        for li, (bl, m) in enumerate(layouts):
             text = p_prog(prog, bl, m)
             if text in seen:
                 continue
             seen.add(text)
+            # ENVIRONMENT: the second layout of every second program runs under a process-level setting (in rotation)
+            opts = {"env": C11_ENVS[(pi // 2) % len(C11_ENVS)]} if li == 1 and pi % 2 == 0 else None
             ck.count("depth=%02d" % depth)
             for f in feats:
                 ck.count(f)
             for b in SINGLE_BLANKS[:-1]:
                 if b in text:
                     ck.count("blank:%r" % b)
-            outs.append(ask(stream, prog, text)[0])
+            outs.append(ask(stream, prog, text, opts=opts)[0])
         if len(outs) == 2 and outs[0] != outs[1]:
             sh = lambda o: (show_canon(o[1]) if o[0] == "value" else "raises " + str(o[1]))[:600]
             ck.failing_input("C11:layout-changes-result", f"two layouts of one program give {sh(outs[0])[:300]} and {sh(outs[1])[:300]}",
                              {"ast": repr(prog)[:4000], "results": [sh(o) for o in outs]})
 
     # sessions: several queries one after the other in this process; each against the reference on it alone
-    sessions = [("session", q) for q in corpus_sessions()] + [("session-random", g_session(ck.rng)) for _ in range(150 if quick else 10000)]
+    sessions = [("session", q) for q in corpus_sessions()] + [("session-after-rejections", q) for q in corpus_rejections()]
+    sessions += [("session-random", g_session(ck.rng)) for _ in range(150 if quick else 10000)]
     # an optional parameter supplied: one text asked of the second datastore (its buckets carry other hostnames) and of the first
     beyond = [p for p, b in arity_progs if b]
     sessions += [("session-arity", [(ds, p) for p in beyond[i:i + 8] for ds in ("A", "main")]) for i in range(0, len(beyond), 8)]
-    for stream, queries in sessions:
+    for si, (stream, queries) in enumerate(sessions):
         memo, history = {}, []
         bl = compact if ck.rng.random() < 0.3 else rnd
+        nq = 0
         for item in queries:
-            if isinstance(item, list):           # an op on a datastore between two queries
+            if isinstance(item, list):           # an op on a datastore (or a run of rejected queries) between two queries
                 try:
                     sess.apply(item)
                 except Exception as e:
                     ck.disagreement("session", f"op {item[:3]!r} of a session raised {type(e).__name__}: {e}",
                                     {"session": setup_ops + history + [item]})
                     break
+                ck.count("session-op:" + item[0] + (" of %d rejected queries" % (item[1] * len(item[2])) if item[0] == "repeat" else ""))
                 history.append(item)
                 continue
             dsname, prog, ctx = item if len(item) == 3 else item + (None,)
             text = p_prog(prog, bl, memo)
-            got, op = ask(stream, prog, text, dsname, history, ctx)
+            # part of every session on worker threads that stay alive between their queries; settings in rotation
+            nq += 1
+            opts = {}
+            if (nq + si) % 3 == 1:
+                opts["thread"] = "w1" if (nq + si) % 2 else "w2"
+            if (nq + 2 * si) % 5 == 0:
+                opts["env"] = C11_ENVS[(nq + si) % len(C11_ENVS)]
+            got, op = ask(stream, prog, text, dsname, history, ctx, opts)
             history.append(op)
         ck.count("session-length=%d" % len(queries))
+    HUNG[:] = impl.hung
+    ck.coverage["worker_threads_that_never_came_back"] = list(impl.hung)
 
     if have_driver and wire:
         model = common.run_driver("C11", wire)
